@@ -37,7 +37,7 @@ def main():
                 env = dict(ENV, VERIF_REPO=wt)
                 if nocorpus:
                     env["VERIF_NO_CORPUS"] = "1"
-                rc, out = sh("./check %s --tier quick 2>&1 | grep -v '^\\[' | tail -6" % i, cwd=ROOT, env=env)
+                rc, out = sh("./check %s --tier quick 2>&1" % i, cwd=ROOT, env=env)
                 v = [l for l in out.splitlines() if l.startswith("VIOLATION")]
                 res[i] = ("caught" + (" (no-failing-input-found)" if v and all("no-failing-input-found" in l for l in v) else "")) if v else "MISSED"
             print(json.dumps({"name": name, "result": res}), flush=True)
